@@ -39,6 +39,10 @@ def histories(draw):
     if kind == "scikit-default":
         ops = ops[:12]          # the real Gaussian-process regressor is fitted: keep these histories short
     return {"kind": kind, "hook": has_hook, "train_step": ts, "ops": ops,
+            # samples loaded into the training set before the first request (add_data, as after reading an earlier sweep)
+            "preload": draw(st.sampled_from([0, 0, 1, 2, 3, 7])),
+            # the statistics option switched off (only for the minimal subclass: the Scikit wrapper's train() needs it)
+            "eval_stats": not (kind == "minimal" and draw(st.booleans())),
             # an inequality constraint g(x) = x0 (violated for x0 >= 0): Job computes the feasibility flag from it
             "constrained": draw(st.booleans())}
 
@@ -131,10 +135,18 @@ def check_history(case):
                 sur = Minimal(prob)
                 stub = None
             sur.train_step = case["train_step"]
+            if not case.get("eval_stats", True):
+                sur.eval_stats = False
             prob.surrogate = sur
             job = Job(prob)
         m = {"trained": False, "eval": 0, "pred": 0, "x": [], "y": [], "trains": 0, "req": 0, "hook": case["hook"],
              "ts": case["train_step"]}
+        with guard("predicting"):
+            for j in range(case.get("preload", 0)):
+                px, py = [9.0 + j, -9.0], [100.0 + j]
+                sur.add_data(px, py)
+                m["x"].append(px)
+                m["y"].append(py)
         edited = set()
         seen_pred = seen_decl_after = seen_retrain = False
         for k, op in enumerate(case["ops"]):
@@ -226,7 +238,8 @@ def check_history(case):
         dispose(prob)
     return {"nt": seen_pred and seen_decl_after and seen_retrain,
             "classes": [case["kind"], "ts%d" % case["train_step"], "hook" if case["hook"] else "no-hook"] + (
-                ["predicted"] if seen_pred else []) + (["retrained"] if seen_retrain else []) + sorted(edited)}
+                ["predicted"] if seen_pred else []) + (["retrained"] if seen_retrain else []) + sorted(edited) + (
+                ["preloaded"] if case.get("preload") else []) + ([] if case.get("eval_stats", True) else ["eval_stats-off"])}
 
 
 @st.composite
